@@ -222,10 +222,12 @@ reg("C11", harness="c11_checksum", level="fault_enumeration", deadline=(300, 240
                "substitutions at EVERY offset and decoded under one-shot (6 capacities), streaming, byte-at-a-time, 1-byte-output and every "
                "2-split drivers on kernels base/_01/_04: success only if the reference accepts the mutated bytes with the same output, and "
                "state.crc must equal the reference checksum. Producer: trailers of all levels x 4 wrapper modes x 5 chunkings x 4 CPU levels "
-               "are recomputed independently; thorough adds the 2^32+5-byte ISIZE wrap-around.",
+               "are recomputed independently; thorough adds the 2^32+5-byte ISIZE wrap-around. Boundary part: a payload whose running Adler-32 "
+               "halves pass through 0, 1, 65519, 65520 is split at EVERY position (output split for the verifier in 4 modes x 2 encodings, input "
+               "split x 3 flush kinds x 4 levels for the producer) on the base/sse/avx2 Adler kernels, plus every boundary-valued prefix as a whole payload.",
     level_note="multi-bit corruptions that preserve CRC-32/Adler-32 are outside first-order closure (checksums are not collision-free); trusted: "
                "ref CRC-32/Adler-32 (bit-serial definition) and ref_inflate.",
-    runs=[dict(flavour="sim", part="verifier"), dict(flavour="sim", part="producer"), dict(flavour="sim", part="isize")],
+    runs=[dict(flavour="sim", part="verifier"), dict(flavour="sim", part="producer"), dict(flavour="sim", part="boundary"), dict(flavour="sim", part="isize")],
     rule="case = (mutated wrapped stream, driver, capacity, kernel) / (input, level, wrapper, chunking, cpu); a candidate is non-trivial iff the "
          "reference verdict is not VALID; distinct_nontrivial counts those plus distinct produced streams.")
 
@@ -299,12 +301,14 @@ reg("C05", harness="c05_memory", level="fault_enumeration", deadline=(600, 3000)
                "PROT_NONE page, inputs mapped read-only, canaries on the other side: one-shot and single-call codecs over the SHAPES inputs x levels x "
                "wrappers x table choices x 7 CPU levels (level_buf exactly ISAL_DEF_LVLx_MIN, output exactly the documented bound, inflate input "
                "with no slop bytes); streaming with every chunk in its own exact-size mapping that is made inaccessible as soon as it is recycled "
-               "(uniform (in,out) chunk pairs x levels x flush modes); the same harness on the portable-C build under ASan/UBSan and on the NDEBUG "
+               "(uniform (in,out) chunk pairs x levels x flush modes); large chunks (345 000 bytes in 2 or 3 pieces, incompressible and mixed, levels 1-3 x "
+               "level-buffer classes) with the first-chunk length swept byte by byte behind every block boundary the codec chose, the consumed chunk "
+               "inaccessible during the next call and the result decoded by the reference; the same harness on the portable-C build under ASan/UBSan and on the NDEBUG "
                "build; and the complete kernel sweeps (CRC, erasure code, update, RAID, zero detect: every length x end-flush and start-flush "
                "placements x every ISA variant) re-run under this property.",
     level_note="an out-of-range access that lands inside another live buffer of the same call needs an offset beyond the 1 MiB guard bands; "
                "intra-struct overflows are visible only in the ASan flavour (portable C code, not the assembly kernels).",
-    runs=[dict(flavour="sim", part="exact"), dict(flavour="sim", part="revoke"), dict(flavour="rel"), dict(flavour="noarch"),
+    runs=[dict(flavour="sim", part="exact"), dict(flavour="sim", part="revoke"), dict(flavour="sim", part="bigchunks"), dict(flavour="rel", part="exact,revoke"), dict(flavour="noarch", part="exact,revoke,bigchunks"),
           dict(flavour="sim", harness="c20_zero"), dict(flavour="sim", harness="c04_crc"), dict(flavour="sim", harness="c03_ec"),
           dict(flavour="sim", harness="c13_update"), dict(flavour="sim", harness="c08_raid")],
     rule="case = (entry point, variant / CPU level, input or length, placement); a fault, canary damage or sanitizer report is a violation; "
